@@ -399,4 +399,13 @@ def rule_g(prog, rep):
         rep.violation('C18.g', 'apply_grave_good', f.loc, f'grave goods are not applied to both the store and the table ({sorted(cs)})', key='C18.g/apply_grave_good')
 
 
-RULES = [('C18.g', rule_g), ('C18.f', rule_f), ('C18.a', rule_a), ('C18.b', rule_b), ('C18.c', rule_c), ('C18.d', rule_d), ('C18.e', rule_e)]
+def rule_h(prog, rep):
+    rep.rule('C18.h', 'T3', 'an ended session leaves no pending registration behind: Worterbuch::disconnected queues '
+             'remove_grave_goods_and_last_will(client_id) to the writer exactly once on every path (= the clean-up order clause '
+             'C07.b) - a registration that stays in the grave-goods / last-will tables is applied again by the next load, after '
+             'newer changes')
+    from . import c07
+    c07.rule_b(prog, Proxy(rep, 'C18.h'))
+
+
+RULES = [('C18.h', rule_h), ('C18.g', rule_g), ('C18.f', rule_f), ('C18.a', rule_a), ('C18.b', rule_b), ('C18.c', rule_c), ('C18.d', rule_d), ('C18.e', rule_e)]
